@@ -515,6 +515,14 @@ def enfOp (st : EnfSt) (ts : List String) : Option (EnfSt × String × String ×
           let news ← decodeRules b
           let (e', upd, err) := e.updatePoliciesSelf pr sec pt olds news
           some ({ st with enf := some { ep with base := e' }.syncCache, histOk := st.histOk && stateOk e' }, s!"{showBool upd} E {if err then 1 else 0}", "-", true)
+      | "dist-updf", per :: sec :: pt :: fi :: rest => do
+          let pr ← parsePersist per
+          let fi ← fi.toNat?
+          let (a, b) ← splitTwo "||" rest
+          let vs ← decodeAll a
+          let news ← decodeRules b
+          let (e', upd, err) := e.updateFilteredPoliciesSelf pr sec pt news fi vs
+          some ({ st with enf := some { ep with base := e' }.syncCache, histOk := false }, s!"{showBool upd} E {if err then 1 else 0}", "-", true)
       | "addmf", [gt, f] =>
           let (ep', ok) := ep.addMatchingFunc gt f
           retP ep' (showBool ok) "-" true
